@@ -67,6 +67,15 @@ def c03(run):
         "every element id and allocator block is followed through every call: drops observed in each call = drops of the abstract machine; block ledger = layouts of the live tables")
 
 
+def c06(run):
+    return generic_check(run, [], [],
+        [("table", ["table:te24:collide:20:1200:table", "table:te24:zero:12:700:table:plan2=mixed", "table:t1:fewpos:16:500:table"]),
+         ("table2", ["table:te32:onegroup:14:800:table", "table:te24:mixed:30:600:table:plan2=collide"])],
+        [("table3", ["table:te208:collide:24:4000:table", "table:tea64:max:16:3000:table", "table:te24:lowbit:14:3000:table"]),
+         ("tableg", ["table:te24:collide:20:3000:table", "table:t1:zero:14:2000:table"], G)],
+        "HashTable operations with caller-supplied hashes (two plans, duplicates of equal elements) validated against the multiset specification; iter_hash outputs, remove + re-insert through the returned VacantEntry, entry() at full load")
+
+
 def c07(run):
     return generic_check(run, [], [],
         [("sets", ["set:k8t:collide:20:900:set", "set:k8t:fewpos:16:1200:setalg", "set:k4:zero:12:700:setalg:plan2=mixed"]),
@@ -141,6 +150,7 @@ def c15(run):
 CHECKS = {
     "C01": c01,
     "C03": c03,
+    "C06": c06,
     "C07": c07,
     "C08": c08,
     "C09": c09,
